@@ -4463,7 +4463,7 @@ func ConstructInclusiveRangeTypeValue(
 
 	// InclusiveRanges must hold integers
 	elemSemaTy := context.SemaTypeFromStaticType(ty)
-	if !sema.IsSameTypeKind(elemSemaTy, sema.IntegerType) {
+	if !sema.IsSubType(elemSemaTy, sema.IntegerType) {
 		return Nil
 	}
 
